@@ -190,6 +190,10 @@ where
                 if Instant::now() >= finish_by {
                     return false;
                 }
+                #[cfg(grmtools_verif)]
+                if crate::verif_hooks::tick() {
+                    return false;
+                }
 
                 match n.last_repair() {
                     Some(Repair::Delete) => {
@@ -394,6 +398,10 @@ where
             if Instant::now() >= finish_by {
                 return None;
             }
+            #[cfg(grmtools_verif)]
+            if crate::verif_hooks::tick() {
+                return None;
+            }
             let mut out = Vec::new();
             match *rm.val().unwrap() {
                 RepairMerge::Repair(r) => {
@@ -585,6 +593,10 @@ where
     let mut furthest = 0;
     for rpr_seqs in in_cnds {
         if Instant::now() >= finish_by {
+            return vec![];
+        }
+        #[cfg(grmtools_verif)]
+        if crate::verif_hooks::tick() {
             return vec![];
         }
         let mut pstack = in_pstack.to_owned();
